@@ -59,3 +59,41 @@ Theorem C03_run_offsets : forall w m ns, forallb (fun n => negb (is_position n))
   synced m st' /\ e_baddr st' = e_baddr st /\
   spec_offset m (a_val (r_reloc (e_r st'))) = spec_offset m (a_val (r_reloc (e_r st))) + Z.of_nat (length (concat bss)).
 Proof. exact emit_prefix_synced. Qed.
+
+(** The writer protocol as a whole, in exactly the form the run-time oracle checks on the
+    implementation's trace (Oracle/Coreo.v: [cut_spec], [pcs_ok], [offsets_ok]).  For EVERY node
+    list and start state: the blocks handed to the writer are the independent cutter's reading of
+    the emission trace (bytes accumulate in source order; [*=] flushes at the offset where the run
+    started; records of an included patch go out where the directive stands; nothing else), and a
+    node that emits n bytes moves the file offset by n, nothing else moves it but [*=]/[@=]. *)
+From A816 Require Import Oracle.Coreo Proofs.WriterProtocol Proofs.WriterProtocolBus.
+Theorem C03_writer_protocol : forall w r ns o,
+  assemble_nodes w r ns = Ok o ->
+  exists r1 addrs tr,
+    resolve_labels w r ns = Ok (r1, addrs) /\
+    model_trace w (emit_start r1) ns addrs = Ok (tr, r_pc (o_final o)) /\
+    o_blocks o = cut_spec tr (r_pc (o_final o)) [] 0 /\
+    pcs_ok tr (r_pc (o_final o)) = true.
+Proof. exact assemble_writer_protocol. Qed.
+(** Offsets, on the built-in buses: every byte emitted while the code is not relocated ([@=]) lies
+    at the file offset the mapping assigns to its run address — for programs that start with [*=]
+    (or from the initial LoROM position), as long as unrelocated bytes are not emitted at RAM
+    addresses and no single node carries the offset past 4 MiB ([rom_run]; both restrictions are
+    needed: `*=` to a RAM address leaves the output offset where it was, and a run that walks from
+    there into a ROM bank is stored contiguously — WriterProtocolBus.v, ramrun examples). *)
+Theorem C03_writer_protocol_offsets : forall w high r e fi ns o,
+  get_bus w r = Ok (builtin high) ->
+  assemble_nodes w r (NCodePos e fi :: ns) = Ok o ->
+  exists r1 addrs tr,
+    resolve_labels w r (NCodePos e fi :: ns) = Ok (r1, addrs) /\
+    model_trace w (emit_start r1) (NCodePos e fi :: ns) addrs = Ok (tr, r_pc (o_final o)) /\
+    protocol_ok high tr (r_pc (o_final o)) (o_blocks o).
+Proof. exact assemble_writer_protocol_codepos. Qed.
+Theorem C03_writer_protocol_initial : forall w high r ns o,
+  get_bus w r = Ok (builtin high) -> in_step (builtin high) (set_pc r 0) ->
+  assemble_nodes w r ns = Ok o ->
+  exists r1 addrs tr,
+    resolve_labels w r ns = Ok (r1, addrs) /\
+    model_trace w (emit_start r1) ns addrs = Ok (tr, r_pc (o_final o)) /\
+    protocol_ok high tr (r_pc (o_final o)) (o_blocks o).
+Proof. exact assemble_writer_protocol_builtin. Qed.
